@@ -265,14 +265,15 @@ def _coqtop(path, timeout):
             except OSError: tail = ''
             ms = re.findall(r'BEGIN (\d+)', tail); m = ms[-1] if ms else None
             if m != last_marker: last_marker = m; last_t = time.time()
-            if time.time() - last_t > LEMMA_TIMEOUT[0] + 5 or time.time() - t0 > timeout:
+            limit = (LEMMA_TIMEOUT[0] + 5) if last_marker is not None else 600      # loading the model can take a while on a busy machine
+            if time.time() - last_t > limit or time.time() - t0 > timeout:
                 try: os.killpg(p.pid, 9)
                 except OSError: pass
                 p.wait(); killed = True; break
     out = open(outp, errors='replace').read()
     return out + ('\nFILE-TIMEOUT' if killed else '')
 
-def prove_files(dirpath, files, hdr=HDR, max_fail=12, deps_extra=(), extra=(), timeout=3000):
+def prove_files(dirpath, files, hdr=HDR, max_fail=12, deps_extra=(), extra=(), timeout=3000, footer=''):
     """files: {basename: [Lemma]}.  Every lemma is attempted independently: the file is fed to coqtop sentence by sentence, a
     failing lemma is aborted and the next one still runs.  A lemma is discharged when Coq accepted its Qed (checked by
     referring to the constant afterwards); one that hits the per-lemma Timeout or the memory limit is *deferred* (not an
@@ -293,6 +294,7 @@ def prove_files(dirpath, files, hdr=HDR, max_fail=12, deps_extra=(), extra=(), t
         for i, l in enumerate(lems):
             if i < start: continue
             out.append('Goal True. idtac "BEGIN %d". Abort.\n%s\nAbort All.\nGoal True. let x := constr:(%s) in idtac "PROVED %d". Abort.\nDefinition acc_%d := (acc_%d, %s).\nDefinition acc_%d := acc_%d.\n' % (i, l.text(), l.name, i, i + 1, i if i > start else 0, l.name, i + 1, i if i > start else 0))
+        out.append(footer)
         out.append('Goal True. idtac "ASSUMPTIONS". Abort.\nPrint Assumptions acc_%d.\nGoal True. idtac "END". Abort.\n' % len(lems))
         return ''.join(out)
     def one(b):
